@@ -76,6 +76,7 @@ def _lookup(ctx, c, e, cache):
         mk = ("mesh",) + ck
         if mk not in cache:
             cache[mk] = Mesh1D(kv, degree + 1, dim_q=3, derivative_order=1, basis="Lagrange", quadrature="Gauss")
+            cache["tables"] = cache.get("tables", 0) + _mesh_tables(ctx, kv, degree, knots, rep)
         mesh = cache[mk]
         if xi in knots:
             i = knots.index(xi)
@@ -91,6 +92,106 @@ def _lookup(ctx, c, e, cache):
                 if not np.allclose(N, expN, atol=1e-12):
                     ctx.violation(f"meshbasis:p={degree}:knot", f"Mesh1D.eval_basis({xi}, el={ask_el}) = {N.tolist()}, Kronecker property demands {expN.tolist()} (knots {knots})", rep)
                     break
+
+
+def lag(p, nu):
+    """Lagrange basis of degree p with equally spaced nodes on [0, 1] at nu and its nu-derivative: Mesh.tla's L_j = prod_{m # j} (nu p - m) / (j - m)"""
+    val = np.ones(p + 1); der = np.zeros(p + 1)
+    for j in range(p + 1):
+        for m in range(p + 1):
+            if m != j:
+                val[j] *= (nu * p - m) / (j - m)
+        for k in range(p + 1):
+            if k == j:
+                continue
+            t = p / (j - k)
+            for m in range(p + 1):
+                if m not in (j, k):
+                    t *= (nu * p - m) / (j - m)
+            der[j] += t
+    return val, der
+
+
+def _mesh_tables(ctx, kv, degree, knots, rep):
+    """the tables a mesh precomputes on a (possibly non-uniform) partition: quadrature points inside their elements, weights summing to the element
+    lengths, composite exactness for monomials, shape-function tables equal to the Lagrange basis of the element at the quadrature points"""
+    from cardillo.rods.discretization.mesh1D import Mesh1D
+
+    nel = len(knots) - 1
+    n = 0
+    for quad in ("Gauss", "Lobatto"):
+        nq = degree + 1
+        key = f"meshtables:{quad}:p={degree}"
+        try:
+            with warnings.catch_warnings():
+                warnings.simplefilter("ignore")
+                m = Mesh1D(kv, nq, dim_q=3, derivative_order=1, basis="Lagrange", quadrature=quad)
+        except Exception as ex:
+            ctx.violation(key + ":raises", f"Mesh1D on knots {knots} raised {type(ex).__name__}: {ex}", rep)
+            continue
+        n += 1
+        qp, wp = np.real(np.asarray(m.qp)), np.real(np.asarray(m.wp))
+        bad = None
+        for el in range(nel):
+            a, b = knots[el], knots[el + 1]
+            if np.any(qp[el] < a - 1e-12) or np.any(qp[el] > b + 1e-12):
+                bad = f"quadrature points {qp[el].tolist()} of element {el} lie outside [{a}, {b}]"
+            elif abs(np.sum(wp[el]) - (b - a)) > 1e-12 * (b - a):
+                bad = f"weights of element {el} sum to {np.sum(wp[el])}, its length is {b - a}"
+            if bad:
+                break
+            for i in range(nq):
+                val, der = lag(degree, (qp[el, i] - a) / (b - a))
+                if not np.allclose(np.asarray(m.N)[el, i], val, rtol=0, atol=1e-10):
+                    bad = f"N[{el}, {i}] = {np.asarray(m.N)[el, i].tolist()} is not the Lagrange basis of element {el} at its quadrature point {qp[el, i]}: {val.tolist()}"
+                elif not np.allclose(np.asarray(m.N_xi)[el, i], der / (b - a), rtol=1e-9, atol=1e-9):
+                    bad = f"N_xi[{el}, {i}] = {np.asarray(m.N_xi)[el, i].tolist()} is not the derivative of the Lagrange basis of element {el} at {qp[el, i]}: {(der / (b - a)).tolist()}"
+                if bad:
+                    break
+            if bad:
+                break
+        if bad is None:
+            kmax = 2 * nq - 1 if quad == "Gauss" else 2 * nq - 3
+            for k in range(kmax + 1):
+                got = float(np.sum(wp * qp ** k))
+                exact = (knots[-1] ** (k + 1) - knots[0] ** (k + 1)) / (k + 1)
+                if abs(got - exact) > 1e-11 * max(abs(exact), 1.0):
+                    bad = f"the composite {quad} rule of the mesh integrates x^{k} over [{knots[0]}, {knots[-1]}] to {got!r}, exact {exact!r}"
+                    break
+        if bad:
+            ctx.violation(key, f"{bad} (knots {knots})", rep)
+    return n
+
+
+def _interleaved(ctx, cache):
+    """several live meshes of one degree on different partitions, asked alternately for the same element index at fresh points"""
+    n = 0
+    by_degree = {}
+    for k, v in cache.items():
+        if k[0] == "mesh":
+            by_degree.setdefault(k[1], []).append((list(k[2]), v))
+    for degree, meshes in sorted(by_degree.items()):
+        meshes.sort(key=lambda kv_: kv_[0])
+        for rnd, frac in enumerate((0.25, 0.6, 0.85, 0.1)):
+            for el in range(3):
+                for knots, mesh in meshes + meshes[::-1]:
+                    if el >= len(knots) - 1:
+                        continue
+                    a, b = knots[el], knots[el + 1]
+                    nu = frac + 0.01 * rnd + 0.001 * len(knots)
+                    xi = a + (b - a) * nu
+                    n += 1
+                    try:
+                        N = np.asarray(mesh.eval_basis(xi, el))
+                    except Exception as ex:
+                        ctx.violation(f"meshbasis:p={degree}:interleaved:raises", f"Mesh1D.eval_basis({xi}, {el}) on knots {knots} raised {type(ex).__name__}: {ex}", {"knots": knots})
+                        continue
+                    val, der = lag(degree, (xi - a) / (b - a))
+                    if not np.allclose(N[0].ravel(), val, rtol=0, atol=1e-10) or not np.allclose(N[1].ravel(), der / (b - a), rtol=1e-9, atol=1e-9):
+                        ctx.violation(f"meshbasis:p={degree}:interleaved", f"Mesh1D.eval_basis({xi}, el={el}) on knots {knots}, asked while other meshes of the same degree are in use, "
+                                      f"= {N[0].ravel().tolist()}, the element's Lagrange basis gives {val.tolist()}", {"knots": knots, "xi": xi, "el": el})
+                        return n
+    return n
 
 
 def _basis(ctx, c, e):
@@ -175,13 +276,18 @@ def run(ctx):
             ctx.violation(f"{k}:raises", f"case {c} raised {type(ex).__name__}: {ex}", {"case": c})
         if counts[k] == 2:
             samples.append({"case": c, "expected": e if k != "conn" else {"nnodes": e["nnodes"], "elDOF[0]": e["elDOF"][0]}})
+    ninter = _interleaved(ctx, cache)
+    counts["mesh tables (Gauss / Lobatto) on the lookup partitions"] = cache.get("tables", 0)
+    counts["interleaved basis evaluations on live meshes"] = ninter
     ctx.log(f"[C13] cases replayed: {counts}")
     ctx.coverage = {"states": r.distinct, "transitions": max(r.generated, 1), "traces_validated_against_impl": sum(counts.values()),
                     "samples": samples, "exhaustive": True, "cases": counts,
                     "rule": "degrees 1..5 x element counts 1..12 x dims {3,4,7} x {continuous, discontinuous}; 8 knot partitions x all (half-)integer "
                             "parameters x degrees 1..3; basis degree 1..5 x intervals x rational points r/s; Gauss n=1..7, Lobatto n=2..7 x all admissible monomials x intervals"}
     ctx.assumptions = ["basis values compared at 1e-11 absolute against exact fractions; quadrature at 1e-11 relative (Gauss nodes are irrational)",
-                       "non-uniform knot vectors are passed as corner-node data"]
+                       "non-uniform knot vectors are passed as corner-node data",
+                       "the tables a Mesh1D precomputes (qp, wp, N, N_xi) on the lookup partitions are compared with the element's Lagrange basis in the spec's product form "
+                       "(floats, 1e-10) and with exact monomial integrals; live meshes of one degree are asked alternately for the same element index"]
 
 
 def replay(ctx, path):
